@@ -356,12 +356,12 @@ def uni_check(kind, case, rec):
 
 
 FAMILIES = [
-    Family("planestrain-vs-slab", ["quad", "quad8", "quad9"], ps_check, strategy=ps_strategy, n={"quick": 24, "thorough": 300}, chunk=8, weight=3),
+    Family("planestrain-vs-slab", ["quad", "quad8", "quad9"], ps_check, strategy=ps_strategy, n={"quick": 24, "thorough": 900}, chunk=8, weight=3),
     Family("axisymmetric", ["energy", "revolve-quick"], axi_check, strategy=axi_strategy, n={"quick": 8, "thorough": 80}, chunk=4, weight=4),
     Family("axisymmetric-rate", ["revolve-thorough"], axi_check, strategy=axi_strategy, n={"quick": 1, "thorough": 30}, chunk=3, weight=6),
-    Family("condensed-vs-threefield", ["hexahedron", "quad", "quad-axi", "quad8", "quad8-axi"], cond_check, strategy=cond_strategy, n={"quick": 20, "thorough": 300}, chunk=5, weight=3),
+    Family("condensed-vs-threefield", ["hexahedron", "quad", "quad-axi", "quad8", "quad8-axi"], cond_check, strategy=cond_strategy, n={"quick": 20, "thorough": 800}, chunk=5, weight=3),
     Family("condensed-vs-threefield-q", ["hexahedron20"], cond_check, strategy=cond_strategy, n={"quick": 6, "thorough": 60}, chunk=2, weight=8),
-    Family("uniform-vs-general", ["quad", "quad8", "quad9", "hexahedron", "hexahedron20"], uni_check, strategy=uni_strategy, n={"quick": 18, "thorough": 200}, chunk=6),
+    Family("uniform-vs-general", ["quad", "quad8", "quad9", "hexahedron", "hexahedron20"], uni_check, strategy=uni_strategy, n={"quick": 18, "thorough": 800}, chunk=6),
 ]
 
 LEVEL_TEXT = (
